@@ -395,4 +395,52 @@ theorem Run.err_last {ys : List Yield} (h : Run ys) :
     | nil => simp at h; exact h.2
     | cons y pre' => simp at h
 
+/-! ### `RecordsOnly` -/
+
+theorem recordsOnlyNext_latched {p : Parser} (h : p.error = true) : recordsOnlyNext p = (none, p) := by
+  unfold recordsOnlyNext; rw [next_latched h]
+
+/-- the `RecordsOnly` iterator: the same guarantees, and it never yields an `$INCLUDE` item -/
+theorem collectRecordsOnly_run (p : Parser) (hctx : CtxWF p.ctx) :
+    Run (collectRecordsOnly p) ∧ ∀ l path o, Yield.item (.incl l path o) ∉ collectRecordsOnly p := by
+  fun_induction collectRecordsOnly p
+  case case1 => exact ⟨Run.nil, by simp⟩
+  case case2 p i p' h hlt ih =>
+    have g := next_spec hctx
+    unfold recordsOnlyNext at h
+    split at h
+    · cases h
+    · next hne =>
+      rw [h] at g
+      obtain ⟨ih1, ih2⟩ := ih g.2.1
+      refine ⟨Run.item g.1 ih1, ?_⟩
+      intro l path o hmem
+      simp at hmem
+      rcases hmem with rfl | hmem
+      · exact hne l path o p' h
+      · exact ih2 l path o hmem
+  case case3 p i p' h hnlt =>
+    have g := next_spec hctx
+    unfold recordsOnlyNext at h
+    split at h
+    · cases h
+    · rw [h] at g; exact absurd g.2.2 hnlt
+  case case4 p y p' hni h =>
+    have g := next_spec hctx
+    unfold recordsOnlyNext at h
+    split at h
+    · next line path o p'' hn =>
+      simp only [Prod.mk.injEq, Option.some.injEq] at h
+      obtain ⟨rfl, rfl⟩ := h
+      rw [recordsOnlyNext_latched rfl]
+      exact ⟨Run.err (by simp), by simp⟩
+    · rw [h] at g
+      cases y with
+      | item i => exact absurd rfl (hni i)
+      | err e =>
+        simp only [NextOK] at g
+        rw [recordsOnlyNext_latched g.2]
+        exact ⟨Run.err g.1, by simp⟩
+      | panic => exact absurd g (by simp [NextOK])
+
 end QV.ZF
